@@ -218,6 +218,35 @@ fn near_overflow(m: &mut Mon, bits: usize, b: &[u64]) {
 }
 
 fn workload(m: &mut Mon, bits: usize) {
+    // Shape corpora for the interpreter lanes, unthinned and first (a light lane executes about one `mul` case per
+    // width otherwise, and may run out of its time slice before the end of this function): single non-zero limbs at
+    // every pair of offsets, so that the low zero limbs of the operands together reach and exceed the limb count.
+    let n = gen::nlimbs(bits);
+    if m.is_light() && (2..=5).contains(&n) {
+        let mut idx = 0u64;
+        for i in 0..n {
+            for j in 0..n {
+                idx += 1;
+                if m.light_owns(idx, "mul") {
+                    let mut a = gen::zero(bits);
+                    let mut b = gen::zero(bits);
+                    a[i] = u64::MAX;
+                    b[j] = 3;
+                    m.case_always("mul", bits, vec![au(&gen::canon(a, bits)), au(&gen::canon(b, bits))]);
+                }
+            }
+        }
+    }
+    // inv_ring lifts its result limb-count-doubling step by step (1, 2, 4, 8, ... correct limbs), so limb counts that
+    // are not a power of two are a memory shape of their own; the interpreter lanes get two odd values at every
+    // width unthinned (seeded change C02-J: a multiplicand prefix slice of 4 limbs over a 3-limb value).
+    if m.is_light() && n >= 1 {
+        for (k, v) in [gen::max(bits), gen::small(1, bits)].into_iter().enumerate() {
+            if m.light_owns(k as u64, "inv_ring") {
+                m.case_always("inv_ring", bits, vec![au(&v)]);
+            }
+        }
+    }
     if bits <= 4 {
         for a in 0..(1u64 << bits) {
             m.case("inv_ring", bits, vec![au(&gen::small(a, bits))]);
@@ -335,34 +364,6 @@ fn workload(m: &mut Mon, bits: usize) {
                     b[j + 1] = gen::alpha_limb(&mut r);
                 }
                 pair(m, bits, &gen::canon(a, bits), &gen::canon(b, bits));
-            }
-        }
-    }
-    // The same shapes once more for the interpreter lanes, unthinned and split between the shards (a light lane
-    // executes about one `mul` case per width otherwise): single non-zero limbs at every pair of offsets, so that
-    // the low zero limbs of the operands together reach and exceed the limb count.
-    if m.is_light() && (2..=5).contains(&n) {
-        let mut idx = 0u64;
-        for i in 0..n {
-            for j in 0..n {
-                idx += 1;
-                if m.light_owns(idx, "mul") {
-                    let mut a = gen::zero(bits);
-                    let mut b = gen::zero(bits);
-                    a[i] = u64::MAX;
-                    b[j] = 3;
-                    m.case_always("mul", bits, vec![au(&gen::canon(a, bits)), au(&gen::canon(b, bits))]);
-                }
-            }
-        }
-    }
-    // inv_ring lifts its result limb-count-doubling step by step (1, 2, 4, 8, ... correct limbs), so limb counts that
-    // are not a power of two are a memory shape of their own; the interpreter lanes get two odd values at every
-    // width unthinned (seeded change C02-J: a multiplicand prefix slice of 4 limbs over a 3-limb value).
-    if m.is_light() && n >= 1 {
-        for (k, v) in [gen::max(bits), gen::small(1, bits)].into_iter().enumerate() {
-            if m.light_owns(k as u64, "inv_ring") {
-                m.case_always("inv_ring", bits, vec![au(&v)]);
             }
         }
     }
